@@ -790,10 +790,21 @@ def rule_cursor_copy(prog, res, la, rule="R-CURSOR-COPY"):
                         if isinstance(r2, dict) and r2.get("k") in ("mem", "deref", "idx") and \
                                 la.lvalue_key(f, r2, al) == want_src:
                             return True
+                        # a conditional expression with the other cursor's
+                        # component in one arm: a copy under a condition (which
+                        # condition is decided numerically by R-LIN / UNMAP)
+                        if isinstance(r2, dict) and r2.get("k") == "cond":
+                            for arm in (r2.get("t"), r2.get("f")):
+                                a_ = ir.strip(arm)
+                                if isinstance(a_, dict) and a_.get("k") == "ref":
+                                    a_ = ir.strip(f.resolve_ref(a_) or {})
+                                if isinstance(a_, dict) and a_.get("k") in ("mem", "deref", "idx") and la.lvalue_key(f, a_, al) == want_src:
+                                    return True
                 return False
             blk = f.blocks[bid]
             same_block = any(partner(x) for x in blk.stmts)
             after, _ = paths.all_paths_pass(f, (bid, i), "exit", partner)
+            after = after or paths.all_paths_pass(f, "entry", {(bid, i)}, partner)[0]
             inst = "%s:%s %s.%s := %s.%s comes with the %s" % (f.name, s.get("line"), dc, dd, sc, sd, other)
             if same_block or after:
                 res.oblige(rule, inst, True, "%s.%s := %s.%s on the same path" % (dc, other, sc, other), f.loc(s))
